@@ -20,4 +20,4 @@ For each change deliver, inside {wt}/_out/<n>/ (n = 1, 2):
   - patch.diff : `git diff` of the change against the worktree HEAD (only files under panoptica/), applying cleanly with `git apply` at the repository root;
   - demo.py : a small standalone program run as `cd <repo root> && PANOPTICA_CITATION_REMINDER=false /venv/bin/python demo.py` (it will be copied to the root of a checkout) that exits 0 and prints PASS when the property holds on its input and exits 1 and prints FAIL when it is broken - it must FAIL with your change and PASS without it. Use only the library's public behaviour in the demo;
   - note.txt : 3-6 lines: what the change is, why it breaks the property, and what specifically is needed for the breakage to manifest.
-Before finishing, verify both directions yourself (demo passes on clean tree, fails with the patch; test suite still passes with the patch), then restore the worktree to a clean state (`git checkout -- .`) leaving only the _out directory. Keep each patch small (a few lines). Note: the library uses multiprocessing.Pool internally, so each evaluation takes ~0.1-0.3 s; keep demos short. Report in your final message the two changes in one paragraph each.""")
+Before finishing, verify both directions yourself (demo passes on clean tree, fails with the patch; test suite still passes with the patch), then restore the worktree to a clean state (`git checkout -- .`) leaving only the _out directory. Keep each patch small (a few lines). Never use `git stash` (the stash is shared between worktrees); use `git diff > file; git checkout -- .; git apply file` instead. Note: the library uses multiprocessing.Pool internally, so each evaluation takes ~0.1-0.3 s; keep demos short. Report in your final message the two changes in one paragraph each.""")
